@@ -6,6 +6,8 @@
                U_store  entry.weight := new; the guard is released
       delete   S_remove key_weights.remove(id)  (waits while another thread holds that entry's guard)
                S_sub    weight_used -= removed weight
+               W_remove / W_sub: the same on the worker thread (Delete command, eviction); the worker runs one command at
+               a time, so it does not start a delete while its own update is half-way
 
     [guarded] says whether update keeps the entry guard from U_start to U_store, as the code does.  With the guard the
     total is exact whenever no operation is half-way (proofs/LedgerUpdProofs.v); without it there is a schedule after
@@ -16,7 +18,8 @@ Record ustate := {
   u_used : Z;
   u_charges : list (Z * Z);
   u_upd : option (Z * Z * Z * bool);     (* id, existing weight read, new weight, total already adjusted *)
-  u_del : option Z                       (* weight of an entry removed by the sweeper and not yet subtracted *)
+  u_del : option Z;                      (* weight of an entry removed by the sweeper and not yet subtracted *)
+  u_wdel : option Z                      (* the same for a removal by the worker (Delete command, eviction) *)
 }.
 
 Inductive uaction :=
@@ -24,7 +27,9 @@ Inductive uaction :=
 | UAdd
 | UStore
 | SRemove (vid : Z)
-| SSub.
+| SSub
+| WRemove (vid : Z)                      (* the worker's CacheWeight::delete (Delete command / eviction), first half *)
+| WSub.
 
 Definition holds_guard (s : ustate) (id : Z) : bool :=
   match u_upd s with Some (i, _, _, _) => i =? id | None => false end.
@@ -33,12 +38,12 @@ Definition ustep (guarded : bool) (s : ustate) (a : uaction) : ustate :=
   match a with
   | UStart id w =>
       match u_upd s, alookup id (u_charges s) with
-      | None, Some old => if 0 <? w then {| u_used := u_used s; u_charges := u_charges s; u_upd := Some (id, old, w, false); u_del := u_del s |} else s
+      | None, Some old => if 0 <? w then {| u_used := u_used s; u_charges := u_charges s; u_upd := Some (id, old, w, false); u_del := u_del s; u_wdel := u_wdel s |} else s
       | _, _ => s
       end
   | UAdd =>
       match u_upd s with
-      | Some (id, old, w, false) => {| u_used := u_used s + (w - old); u_charges := u_charges s; u_upd := Some (id, old, w, true); u_del := u_del s |}
+      | Some (id, old, w, false) => {| u_used := u_used s + (w - old); u_charges := u_charges s; u_upd := Some (id, old, w, true); u_del := u_del s; u_wdel := u_wdel s |}
       | _ => s
       end
   | UStore =>
@@ -46,25 +51,36 @@ Definition ustep (guarded : bool) (s : ustate) (a : uaction) : ustate :=
       | Some (id, old, w, true) =>
           {| u_used := u_used s;
              u_charges := if amem id (u_charges s) then aset id w (u_charges s) else u_charges s;
-             u_upd := None; u_del := u_del s |}
+             u_upd := None; u_del := u_del s; u_wdel := u_wdel s |}
       | _ => s
       end
   | SRemove vid =>
       match u_del s, alookup vid (u_charges s) with
       | None, Some vw =>
           if guarded && holds_guard s vid then s
-          else {| u_used := u_used s; u_charges := aremove vid (u_charges s); u_upd := u_upd s; u_del := Some vw |}
+          else {| u_used := u_used s; u_charges := aremove vid (u_charges s); u_upd := u_upd s; u_del := Some vw; u_wdel := u_wdel s |}
       | _, _ => s
       end
   | SSub =>
       match u_del s with
-      | Some vw => {| u_used := u_used s - vw; u_charges := u_charges s; u_upd := u_upd s; u_del := None |}
+      | Some vw => {| u_used := u_used s - vw; u_charges := u_charges s; u_upd := u_upd s; u_del := None; u_wdel := u_wdel s |}
+      | None => s
+      end
+  | WRemove vid =>
+      match u_upd s, u_wdel s, alookup vid (u_charges s) with
+      | None, None, Some vw =>
+          {| u_used := u_used s; u_charges := aremove vid (u_charges s); u_upd := None; u_del := u_del s; u_wdel := Some vw |}
+      | _, _, _ => s
+      end
+  | WSub =>
+      match u_wdel s with
+      | Some vw => {| u_used := u_used s - vw; u_charges := u_charges s; u_upd := u_upd s; u_del := u_del s; u_wdel := None |}
       | None => s
       end
   end.
 
 Definition urun (guarded : bool) (s : ustate) (sched : list uaction) : ustate := fold_left (ustep guarded) sched s.
 
-Definition uquiet (s : ustate) : Prop := u_upd s = None /\ u_del s = None.
+Definition uquiet (s : ustate) : Prop := u_upd s = None /\ u_del s = None /\ u_wdel s = None.
 Definition uconsistent (s : ustate) : Prop :=
   NoDup (map fst (u_charges s)) /\ u_used s = charges_sum (u_charges s) /\ uquiet s.
